@@ -198,6 +198,12 @@ func (a *vfAssembly) build() (err error) {
 	return nil
 }
 
+// vfHandler is the handler the production HTTP servers serve: the mux behind
+// the request-body limiter.
+func vfHandler() (h http.Handler) {
+	return withMiddlewares(globalContext.mux, limitRequestBody)
+}
+
 // vfMuxPatterns reads the registered patterns (and the source location of
 // their registering call) out of a ServeMux by read-only reflection.
 func vfMuxPatterns(mux *http.ServeMux) (ps []vfPattern) {
